@@ -4,6 +4,8 @@ import (
 	"bytes"
 	"context"
 	"fmt"
+	"io"
+	"io/ioutil"
 	"math/rand"
 	"os"
 	"runtime"
@@ -470,8 +472,17 @@ func runFree(doc *osmDoc, keep string, procs []int, runs int) []Event {
 			var err error
 			// every other repetition asks for the objects without their tags: which objects are extracted is the same
 			keepTags := i%2 == 0
+			// every third repetition hands over a reader that has already been read (to its end, or part of the way): the
+			// extraction is of the document, wherever the reader happens to stand
+			rd := bytes.NewReader(xml)
+			switch i % 3 {
+			case 1:
+				io.Copy(ioutil.Discard, rd)
+			case 2:
+				rd.Seek(int64(len(xml)/2), 0)
+			}
 			out := safely(func() {
-				data, err = gosm.ExtractXML(context.Background(), bytes.NewReader(xml), keepFn(keep), keepTags)
+				data, err = gosm.ExtractXML(context.Background(), rd, keepFn(keep), keepTags)
 			})
 			if out != "ok" {
 				err = fmt.Errorf("%s", out)
